@@ -292,6 +292,12 @@ where
     if is_4digits::<FORMAT>(bytes) {
         // SAFETY: safe since we have at least 4 bytes in the buffer.
         unsafe { iter.step_by_unchecked(4) };
+        // NOTE: `step_by_unchecked` only moves the cursor, every digit we
+        // stepped over still has to be counted (a no-op if there is no
+        // digit separator in the format).
+        for _ in 0..4 {
+            iter.increment_count();
+        }
         Some(T::as_cast(parse_4digits::<FORMAT>(bytes)))
     } else {
         None
@@ -366,6 +372,12 @@ where
     if is_8digits::<FORMAT>(bytes) {
         // SAFETY: safe since we have at least 8 bytes in the buffer.
         unsafe { iter.step_by_unchecked(8) };
+        // NOTE: `step_by_unchecked` only moves the cursor, every digit we
+        // stepped over still has to be counted (a no-op if there is no
+        // digit separator in the format).
+        for _ in 0..8 {
+            iter.increment_count();
+        }
         Some(T::as_cast(parse_8digits::<FORMAT>(bytes)))
     } else {
         None
